@@ -307,7 +307,7 @@ theorem groupsOf_saNormE (env : Env) (ks : List Expr) (h : ks.all okE = true) (r
 theorem evalGSelect_saGSelect (env : Env) (db : Db) (g : GSelect) (h : okGSelect g = true)
     (hr : raisesFrom g.from_ = false) : evalGSelect env db (saGSelect g) = evalGSelect env db g := by
   simp only [okGSelect, Bool.and_eq_true] at h
-  obtain ⟨⟨⟨⟨hf, ht⟩, hw⟩, hg⟩, hh⟩ := h
+  obtain ⟨⟨⟨⟨⟨hf, ht⟩, hw⟩, hg⟩, hh⟩, ho⟩ := h
   have hwhere : ∀ rows, whereRows env (Option.map saNormE g.where_) rows = whereRows env g.where_ rows := by
     intro rows
     cases hs : g.where_ with
@@ -332,7 +332,7 @@ theorem evalGSelect_saGSelect (env : Env) (db : Db) (g : GSelect) (h : okGSelect
       rw [hs] at hh
       simp only [Option.map_some, havingGroups, havingOk, evalT_saT env _ hv.1 hh]
   simp only [evalGSelect, saGSelect, evalFrom_saFrom env db _ hf hr, hwhere,
-    groupsOf_saNormE env _ hg, hhav, htar]
+    groupsOf_saNormE env _ hg, hhav, htar, rowsLe_saKey env _ ho]
 
 /-- **T6.1** -/
 theorem evalQuery_saNorm (env : Env) (db : Db) (q : Query) (h : okQ q = true)
